@@ -48,6 +48,7 @@ def register(reg):
   register_sequences(reg)
   register_checkpoints(reg)
   register_stop(reg)
+  register_abort(reg)
   reg.replayers['PhaseFailureCheckpoint._check_for_action'] = replay_check_for_action
   for hdr in ('for phase_rec in phase_records',):
     c.loop(hdr, inv=[('none_failed_so_far',
@@ -122,6 +123,14 @@ def register_structure(reg):
     for name, v in (('calls_node', env['node']), ('calls_st', env['subtest_rec']), ('calls_td', env['in_teardown']), ('calls_ret', result)):
       if name in st.ghost and v is not None:
         ex.list_append(st, st.ghost[name], v)
+    if '$need_abort_check' in st.ghost:
+      from pyvc.state import Obligation
+      import z3
+      abort_t = ex.read_field(st, env['self'], '_abort').t
+      checked = any(ev[0] == 'event.is_set' and z3.simplify(ev[1] == abort_t).__bool__() if z3.is_true(z3.simplify(ev[1] == abort_t)) or z3.is_false(z3.simplify(ev[1] == abort_t)) else False
+                    for ev in st.ghost.get('$trace', ()))
+      ex.ctx.obligations.append(Obligation('%s/order.the_abort_flag_is_read_before_every_node_is_dispatched' % ex.ctx.unit, 'order', list(st.pc),
+                                           z3.BoolVal(bool(checked)), '', {'msg': 'node dispatched without a preceding read of _abort in this iteration'}))
     if '$need_teardown_lock' in st.ghost:
       from pyvc.state import Obligation
       import z3
@@ -320,6 +329,7 @@ def register_sequences(reg):
 
   # ---------------------------------------------------------------- abortable sequence: stops at the first non-CONTINUE node
   c, common, logs = seq_contract('_execute_abortable_sequence', 'False', ['C02', 'C03', 'C04'])
+  c.setup(lambda ex, st, made: st.ghost.__setitem__('$need_abort_check', True))
   k = '(%s - %s)' % (n1, n0)
   c.ensures('stops_at_the_first_non_CONTINUE_node',
             "forall_int(lambda j: implies(0 <= j and j < %s - 1, ghost('node.ret')[%s + j] is %s.CONTINUE))" % (k, n0, ER))
@@ -477,7 +487,7 @@ def register_stop(reg):
   c = reg.contract(PE, 'PhaseExecutor.stop', props=['C03', 'C04'])
   c.param('timeout_s', 'val{none,int,float}')
   c.ensures('stop_flag_set', 'self._stopping.is_set()')
-  c.modifies('self._stopping.flag', 'TestState.running_phase_state', 'threading.Thread.alive', 'event.flag')
+  c.modifies('self._stopping.flag', 'TestState.running_phase_state', 'threading.Thread.alive')
   c.trusted('the kill / wait handshake with the phase thread is concurrency (C04 / C12, outside this technique); used here only for its '
             'sequential effect: the stop flag is set when it returns')
   c.hooks['after_call'] = under_teardown_lock('stop')
@@ -489,6 +499,8 @@ def register_stop(reg):
     made['force'] = ex.make_input(st, 'force', parse_kind('bool'))
     st.ghost['$stop_force'] = made['force']
   c.setup(setup)
+  c.requires('the_stop_flag_is_its_own_event', 'self._phase_exec is None or (self._phase_exec._stopping is not self._abort and self._phase_exec._stopping is not self._full_abort)')
+  c.ensures('abort_flags_untouched', 'self._abort.is_set() == old(self._abort.is_set()) and self._full_abort.is_set() == old(self._full_abort.is_set())')
   c.ensures('the_stop_flag_is_not_left_set', 'implies(self._phase_exec is not None and self._phase_exec._stopping.is_set(), '
             'old(self._phase_exec is not None and self._phase_exec._stopping.is_set()))')
   c.ensures('a_forced_stop_always_rearms', 'implies(force and self._phase_exec is not None, not self._phase_exec._stopping.is_set())')
@@ -533,3 +545,13 @@ def replay_check_for_action(model, ob):
                                        'current subtest': sub, 'prescribed': want, 'actual': got})
   out['reproduced'] = bad
   return out
+
+
+def register_abort(reg):
+  c = reg.contract(TE, 'TestExecutor.abort', props=['C04'])
+  c.requires('the_stop_flag_is_its_own_event', 'self._phase_exec is None or (self._phase_exec._stopping is not self._abort and self._phase_exec._stopping is not self._full_abort)')
+  c.requires('two_flags', 'self._abort is not self._full_abort')
+  c.ensures('the_run_is_marked_aborted', 'self._abort.is_set()')
+  c.ensures('a_second_abort_is_a_full_abort', 'implies(old(self._abort.is_set()), self._full_abort.is_set())')
+  c.ensures('a_first_abort_is_not', 'implies(not old(self._abort.is_set()), self._full_abort.is_set() == old(self._full_abort.is_set()))')
+  c.modifies('event.flag', 'TestState.running_phase_state', 'threading.Thread.alive')
